@@ -159,13 +159,16 @@ Record st := mkSt {
   s_cur : str;                        (* current_model *)
   s_defnames : list (str * nat);      (* default_names *)
   s_curinst : option nat;             (* current_instance: index in the current model *)
-  s_isbb : bool }.                    (* is_blackbox of the running parse_model_helper *)
+  s_isbb : bool;                      (* is_blackbox of the running parse_model_helper *)
+  s_merged : mtable }.                (* merged_wires: wires of the current model emptied by .conn *)
 
-Definition init_st : st := mkSt empty_bnv [] [] None false.
+Definition init_st : st := mkSt empty_bnv [] [] None false [].
 
-Definition set_nl (s : st) v := mkSt v (s_cur s) (s_defnames s) (s_curinst s) (s_isbb s).
+Definition set_nl (s : st) v := mkSt v (s_cur s) (s_defnames s) (s_curinst s) (s_isbb s) (s_merged s).
 Definition st_models (s : st) : list model := b_models (s_nl s).
 Definition set_ms (s : st) (ms : list model) : st := set_nl s (set_models (s_nl s) ms).
+Definition set_merged (s : st) (al : mtable) : st :=
+  mkSt (s_nl s) (s_cur s) (s_defnames s) (s_curinst s) (s_isbb s) al.
 
 Definition get_model (nm : str) (ms : list model) : model :=
   match find_model nm ms with Some m => m | None => new_model nm end.
@@ -195,7 +198,7 @@ Definition set_inst_name (idx : nat) (nm : str) (m : model) : result model :=
   else Ok (upd_inst idx (fun i => set_iname i (Some nm)) m).
 
 (* ---------- header ---------- *)
-Definition do_input (cur : str) (acc : result (list model)) (tok : str) : result (list model) :=
+Definition do_input (al : mtable) (cur : str) (acc : result (list model)) (tok : str) : result (list model) :=
   do ms <- acc;
   do '(p, i) <- pni tok;
   let ms1 := match find_port p (m_ports (get_model cur ms)) with
@@ -203,9 +206,9 @@ Definition do_input (cur : str) (acc : result (list model)) (tok : str) : result
              | Some _ => upd_model cur (fun m => set_ports m (upd_port p (fun q => set_pdir q DIn) (m_ports m))) ms
              end in
   let ms2 := grow_port cur p (S i) ms1 in
-  upd_model_res cur (connect (PTop p i) p i) ms2.
+  upd_model_res cur (connect_to al (PTop p i) p i) ms2.
 
-Definition do_output (cur : str) (acc : result (list model)) (tok : str) : result (list model) :=
+Definition do_output (al : mtable) (cur : str) (acc : result (list model)) (tok : str) : result (list model) :=
   do ms <- acc;
   do '(p, i) <- pni tok;
   let ms1 := match find_port p (m_ports (get_model cur ms)) with
@@ -217,7 +220,7 @@ Definition do_output (cur : str) (acc : result (list model)) (tok : str) : resul
   let ms2 := upd_model cur (fun m => set_ports m
                (upd_port p (fun q => set_pdir q (if inout then DInout else DOut)) (m_ports m))) ms1 in
   let ms3 := grow_port cur p (S i) ms2 in
-  if inout then Ok ms3 else upd_model_res cur (connect (PTop p i) p i) ms3.
+  if inout then Ok ms3 else upd_model_res cur (connect_to al (PTop p i) p i) ms3.
 
 (* ---------- instances ---------- *)
 (* parse_subcircuit_port *)
@@ -245,7 +248,7 @@ Definition add_child (cur ref : str) (k : ikind) (ms : list model) : list model 
 Definition unconn_entry (p : str) (i : nat) : str := p ++ [c_lb] ++ dec i ++ [c_rb].
 
 (* one iteration of connect_instance_pins *)
-Definition conn_one (cur ref : str) (idx : nat) (acc : result (list model)) (fa : str * str)
+Definition conn_one (al : mtable) (cur ref : str) (idx : nat) (acc : result (list model)) (fa : str * str)
   : result (list model) :=
   do ms <- acc;
   do '(c, k) <- pni (snd fa);
@@ -257,12 +260,12 @@ Definition conn_one (cur ref : str) (idx : nat) (acc : result (list model)) (fa 
     | None => Error EStop
     | Some _ =>
       let ms1 := grow_port ref p (S i) ms in
-      upd_model_res cur (connect (PInst idx p i) c k) ms1
+      upd_model_res cur (connect_to al (PInst idx p i) c k) ms1
     end.
 
-Definition connect_instance_pins (cur ref : str) (idx : nat) (info : list (str * str)) (ms : list model)
+Definition connect_instance_pins (al : mtable) (cur ref : str) (idx : nat) (info : list (str * str)) (ms : list model)
   : result (list model) :=
-  fold_left (conn_one cur ref idx) info (Ok ms).
+  fold_left (conn_one al cur ref idx) info (Ok ms).
 
 (* assign_instance_a_default_name *)
 Definition default_name (tbl : list (str * nat)) (ref : str) : str * list (str * nat) :=
@@ -312,25 +315,26 @@ Definition latch_port (nm : str) : port :=
 Definition cur_model (s : st) : model := get_model (s_cur s) (st_models s).
 
 (* ---------- .conn ---------- *)
-Definition merge_name (a : str) (i : nat) (b : str) (j : nat) : str :=
-  a ++ [c_us] ++ dec i ++ [c_us] ++ b ++ [c_us] ++ dec j.
-
-Definition do_conn (a : str) (i : nat) (b : str) (j : nat) (m : model) : result model :=
+(* get_connected_wires + merge_wires: both cables are looked up (created, grown) under the names
+   written in the file; [x] and [y] are the wires that stand for the two operands now.  Wire [x]
+   takes the pins of wire [y] (appended in their order); both wires stay where they are, so no
+   wire of a bus changes its index and no cable is created beyond the two the statement names *)
+Definition do_conn (al : mtable) (a : str) (i : nat) (b : str) (j : nat) (m : model) : result model :=
   let cs1 := ensure_wire a i (m_cables m) in
   let cs2 := ensure_wire b j cs1 in
-  let nm := merge_name a i b j in
-  match find_cable nm cs2 with
-  | Some _ => Error EValue                       (* create_cable: name already used *)
-  | None =>
-    if str_eqb a b && Nat.eqb i j then Error EAttr  (* wire_two.cable is None after the first removal *)
-    else
-      let w := wire_at a i cs2 ++ wire_at b j cs2 in
-      let cs3 := cs2 ++ [mkCable nm [w]] in
-      let cs4 := if str_eqb a b
-                 then upd_cable a (fun ws => remove_nth (Nat.min i j) (remove_nth (Nat.max i j) ws)) cs3
-                 else upd_cable b (remove_nth j) (upd_cable a (remove_nth i) cs3) in
-      Ok (set_cables m cs4)
-  end.
+  let x := merged_into al (a, i) in
+  let y := merged_into al (b, j) in
+  if nb_eqb x y then Ok (set_cables m cs2)           (* already one wire: nothing to merge *)
+  else
+    let w := wire_at (fst y) (snd y) cs2 in
+    Ok (set_cables m (set_wire (fst y) (snd y) (fun _ => [])
+                       (set_wire (fst x) (snd x) (fun w1 => w1 ++ w) cs2))).
+
+(* merged_wires[wire_two] = wire_one *)
+Definition note_merged (al : mtable) (a : str) (i : nat) (b : str) (j : nat) : mtable :=
+  let x := merged_into al (a, i) in
+  let y := merged_into al (b, j) in
+  if nb_eqb x y then al else al ++ [(y, x)].
 
 (* ---------- one statement ---------- *)
 Definition add_comment (s : st) (toks : list str) : st :=
@@ -351,8 +355,8 @@ Definition finish_inst (s : st) (ref : str) (idx : nat) (nm : option str) (info 
                       | None => default_name (s_defnames s) ref
                       end in
   do ms1 <- upd_model_res (s_cur s) (set_inst_name idx name) ms;
-  do ms2 <- connect_instance_pins (s_cur s) ref idx info ms1;
-  Ok (mkSt (set_models (s_nl s) ms2) (s_cur s) tbl (Some idx) (s_isbb s)).
+  do ms2 <- connect_instance_pins (s_merged s) (s_cur s) ref idx info ms1;
+  Ok (mkSt (set_models (s_nl s) ms2) (s_cur s) tbl (Some idx) (s_isbb s) (s_merged s)).
 
 Definition exec (s : st) (x : stmt) : result st :=
   match x with
@@ -364,9 +368,9 @@ Definition exec (s : st) (x : stmt) : result st :=
                           | None => (Some (nm, nm), Some nm)
                           | Some t => (Some t, b_name n)
                           end in
-    Ok (mkSt (mkBnv ms top nlname (b_comments n) (b_work n) (b_prim n)) nm [] (s_curinst s) false)
-  | SInputs l => do ms <- fold_left (do_input (s_cur s)) l (Ok (st_models s)); Ok (set_ms s ms)
-  | SOutputs l => do ms <- fold_left (do_output (s_cur s)) l (Ok (st_models s)); Ok (set_ms s ms)
+    Ok (mkSt (mkBnv ms top nlname (b_comments n) (b_work n) (b_prim n)) nm [] (s_curinst s) false [])
+  | SInputs l => do ms <- fold_left (do_input (s_merged s) (s_cur s)) l (Ok (st_models s)); Ok (set_ms s ms)
+  | SOutputs l => do ms <- fold_left (do_output (s_merged s) (s_cur s)) l (Ok (st_models s)); Ok (set_ms s ms)
   | SClock l =>
     Ok (set_ms s (upd_model (s_cur s)
           (fun m => set_clock m (Some (match m_clock m with Some c => c | None => [] end ++ l)))
@@ -421,13 +425,14 @@ Definition exec (s : st) (x : stmt) : result st :=
   | SConn a b =>
     do '(an, ai) <- pni a;
     do '(bn, bi) <- pni b;
-    do ms <- upd_model_res (s_cur s) (do_conn an ai bn bi) (st_models s);
-    Ok (set_ms s ms)
+    do ms <- upd_model_res (s_cur s) (do_conn (s_merged s) an ai bn bi) (st_models s);
+    Ok (set_merged (set_ms s ms) (note_merged (s_merged s) an ai bn bi))
   | SBlackbox =>
     (* make_blackbox: every wire of the model is emptied (disconnect_pins_from), then the cables
-       are removed: nothing stays attached to them *)
+       are removed: nothing stays attached to them.  The entries of merged_wires speak of wires
+       of the removed cables, which no name reaches any more: the table is as good as empty *)
     let ms := upd_model (s_cur s) (fun m => set_cables m []) (st_models s) in
-    Ok (mkSt (set_models (s_nl s) ms) (s_cur s) (s_defnames s) (s_curinst s) true)
+    Ok (mkSt (set_models (s_nl s) ms) (s_cur s) (s_defnames s) (s_curinst s) true [])
   | SEnd =>
     let n := s_nl s in
     match m_lib (cur_model s) with
